@@ -25,11 +25,13 @@ import (
 	"io/fs"
 	"os"
 	"path/filepath"
+	"regexp"
 	"runtime"
 	"sort"
 	"strings"
 	"sync"
 	"sync/atomic"
+	"syscall"
 	"testing"
 	"time"
 
@@ -204,7 +206,9 @@ func transform(i int, content []byte) []byte {
 
 type injected struct{ job int }
 
-func (e *injected) Error() string { return fmt.Sprintf("c19: injected post-process failure of job %d", e.job) }
+func (e *injected) Error() string {
+	return fmt.Sprintf("c19: injected post-process failure of job %d", e.job)
+}
 
 type run struct {
 	c       *persistCase
@@ -264,8 +268,8 @@ func (b *testBackend) Lang() string { return "c19" }
 func (b *testBackend) Generate(req *plugin.Request, log backend.LogFunc) *plugin.Response {
 	return plugin.NewResponse()
 }
-func (b *testBackend) Options() []plugin.Option              { return nil }
-func (b *testBackend) BuiltinPlugins() []*plugin.Desc        { return nil }
+func (b *testBackend) Options() []plugin.Option             { return nil }
+func (b *testBackend) BuiltinPlugins() []*plugin.Desc       { return nil }
 func (b *testBackend) GetPlugin(*plugin.Desc) plugin.Plugin { return nil }
 
 var errUnknownPath = errors.New("c19: PostProcess called with a path that is not in the response")
@@ -499,23 +503,34 @@ func (r *run) setup() error {
 	return nil
 }
 
+var (
+	reArgs = regexp.MustCompile(`\(.*\)$`)
+	reAddr = regexp.MustCompile(`( \+0x[0-9a-f]+| in goroutine \d+)`)
+)
+
+// stacks returns the goroutines that are inside the generator package, with
+// identical stacks folded (arguments and addresses dropped).
 func stacks() string {
 	buf := make([]byte, 4<<20)
 	buf = buf[:runtime.Stack(buf, true)]
-	var keep []string
-	for _, g := range strings.Split(string(buf), "\n\n") {
-		if strings.Contains(g, "thriftgo/generator.") {
-			keep = append(keep, g)
-		}
-	}
-	// identical stacks are folded
 	count := map[string]int{}
 	var order []string
-	for _, g := range keep {
-		body := g
-		if k := strings.Index(g, "\n"); k >= 0 {
-			body = g[k+1:]
+	for _, g := range strings.Split(string(buf), "\n\n") {
+		if !strings.Contains(g, "thriftgo/generator.") {
+			continue
 		}
+		lines := strings.Split(g, "\n")
+		state := ""
+		if k := strings.Index(lines[0], "["); k >= 0 {
+			state = strings.TrimRight(lines[0][k:], ":")
+			if c := strings.Index(state, ","); c >= 0 {
+				state = state[:c] + "]" // drop the waiting time
+			}
+		}
+		for i := 1; i < len(lines); i++ {
+			lines[i] = reAddr.ReplaceAllString(reArgs.ReplaceAllString(lines[i], "(...)"), "")
+		}
+		body := state + "\n" + strings.Join(lines[1:], "\n")
 		if count[body] == 0 {
 			order = append(order, body)
 		}
@@ -523,7 +538,7 @@ func stacks() string {
 	}
 	var b strings.Builder
 	for _, body := range order {
-		fmt.Fprintf(&b, "%d goroutine(s):\n%s\n\n", count[body], body)
+		fmt.Fprintf(&b, "%d goroutine(s) %s\n\n", count[body], body)
 	}
 	return vt.Truncate(b.String(), 6000)
 }
@@ -639,7 +654,7 @@ func runOnce(c *persistCase) (o outcome) {
 
 	// leave nothing behind: with all gates open, stray workers of a broken
 	// implementation finish quickly
-	for i := 0; i < 40000 && r.inflight.Load() != 0; i++ {
+	for i := 0; i < 2000 && r.inflight.Load() != 0; i++ {
 		time.Sleep(50 * time.Microsecond)
 	}
 	restore()
@@ -648,6 +663,15 @@ func runOnce(c *persistCase) (o outcome) {
 		os.RemoveAll(dir)
 	}
 	return o
+}
+
+func environmental(err error) bool {
+	for _, e := range []error{syscall.ENOSPC, syscall.EDQUOT, syscall.EMFILE, syscall.ENFILE, syscall.EIO, syscall.ENOMEM} {
+		if errors.Is(err, e) {
+			return true
+		}
+	}
+	return false
 }
 
 // decide is the oracle proper.
@@ -675,6 +699,10 @@ func (r *run) decide(s1 map[string]entry, err1 error, s2 map[string]entry, err2 
 	F := c.faulty()
 	err := r.err
 	switch {
+	case err != nil && environmental(err):
+		// a full disk or an exhausted descriptor table is trouble of the
+		// machine, not of the code under test: judge nothing on this run
+		return nil, false
 	case len(F) == 0 && err != nil:
 		add("no fault was injected, yet Persist failed: %v", err)
 	case len(F) != 0 && err == nil:
@@ -803,10 +831,10 @@ func judgeObs(c persistCase) (observed, error) {
 		still := o.stillBusy()
 		switch {
 		case o2.expired:
-			return ob, fmt.Errorf("deadlock: Persist did not return within %v after the last gate had been opened, in two consecutive runs of the case (n=%d k=%d faults=%v)\n%s\ngoroutines inside the generator package (first run):\n%s",
+			return ob, fmt.Errorf("deadlock: Persist did not return within %v after the last gate had been opened, in two consecutive runs of the case (n=%d k=%d faults=%v)\n%s\ngoroutines inside the generator package at the first expiry (identical stacks folded; stuck goroutines of earlier attempts on the same case are included):\n%s",
 				watchdog, c.N, c.K, c.faulty(), scheduleNote, o.dump)
 		case still:
-			return ob, fmt.Errorf("deadlock: Persist did not return within %v after the last gate had been opened and was still blocked after a complete second run of the same case (which itself returned) (n=%d k=%d faults=%v)\n%s\ngoroutines inside the generator package:\n%s",
+			return ob, fmt.Errorf("deadlock: Persist did not return within %v after the last gate had been opened and was still blocked after a complete second run of the same case (which itself returned) (n=%d k=%d faults=%v)\n%s\ngoroutines inside the generator package at the expiry (identical stacks folded):\n%s",
 				watchdog, c.N, c.K, c.faulty(), scheduleNote, o.dump)
 		default:
 			// the first run did return in the end: a stalled machine, not a deadlock
@@ -836,7 +864,7 @@ var (
 	postPauseGen = rapid.SampledFrom([]int{0, 0, 0, 0, 0, 0, 0, 0, 0, 1, 1, 1, 2, 2, 3, 3, 4, 4, 5, 6})
 	yieldGen     = rapid.SampledFrom([]int{0, 0, 0, 0, 0, 0, 0, 0, 1, 1, 1, 1, 1, 2, 2, 3, 3, 4, 4, 6})
 	sizeGen      = rapid.SampledFrom([]int{0, 0, 1, 7, 63, 64, 100, 100, 100, 300, 300, 1000, 1000, 1000, 4095, 4096, 5000, 5000, 20000, 70000})
-	nGen         = rapid.OneOf(rapid.IntRange(0, 8), rapid.IntRange(0, 8), rapid.IntRange(0, 20), rapid.IntRange(0, 40), rapid.IntRange(0, 40))
+	nGen         = rapid.OneOf(rapid.IntRange(0, 8), rapid.IntRange(1, 8), rapid.IntRange(2, 20), rapid.IntRange(0, 40), rapid.IntRange(8, 40))
 	kGen         = rapid.OneOf(rapid.IntRange(1, 4), rapid.IntRange(1, 16))
 )
 
